@@ -40,6 +40,9 @@ def prim_graph(v, tier, d):
     dot = os.path.join(d, "prim.dot")
     res = tlc.run_tlc("ContourPrim", cfg, workers=8, dump_dot=dot, timeout=1800, check=False)
     v.add_tlc(res)
+    if not res.ok and res.violated is None:
+        v.fail_machinery("TLC did not complete: %s" % res.out[-1500:])
+        return
     if not res.ok:
         v.violation("C11 engine=mc module=ContourPrim violated=%s" % res.violated, "ContourPrim.tla violates %s" % res.violated, {"tlc_tail": res.out[-2500:]})
         return
@@ -96,6 +99,9 @@ def wall_graph(v, tier, d):
     dot = os.path.join(d, "wall.dot")
     res = tlc.run_tlc("Contour", cfg, workers=8, dump_dot=dot, timeout=1800, check=False)
     v.add_tlc(res)
+    if not res.ok and res.violated is None:
+        v.fail_machinery("TLC did not complete: %s" % res.out[-1500:])
+        return
     if not res.ok:
         v.violation("C11 engine=mc module=Contour violated=%s" % res.violated, "Contour.tla violates %s" % res.violated, {"tlc_tail": res.out[-2500:]})
         return
